@@ -109,6 +109,9 @@ def jobs(tier):
                _retain(2, rel=1), _retain(2, end=1), _retain(3), _retain(6), _retain(1, dup=1)]
         js += [_start(0, 0, 0), _start(1, 1, 0), _start(2, 0, 0), _start(1, 1, 1), _start(1, 0, 2), _start(1, 1, 0, again=1)]
         js += [_ctx(1, 1, 0), _ctx(2, 0, 1), _ctx(3, 1, 1), _ctx(4, 1, 0), _ctx(5, 2, 0), _ctx(2, 1, 2), _ctx(6, 0, 0), _ctx(6, 0, 1)]
+        for b in (2, 3):
+            js.append(l2_job("C20.tbstart.b%d" % b, "l2/c20_tbstart.c", defines={"BURST": b}, symbolic=["errno left by callbacks (int)"],
+                             bounds="start of a module whose token bucket holds %d tokens" % b, unwind=13, fp_extra=FP_EXTRA))
         for ac1, ac2, dup2, run in [(1, 1, 0, 1), (0, 1, 0, 1), (1, 1, 0, 0)]:
             nm = "C20.eexist.ac%d%d.dup%d.run%d" % (ac1, ac2, dup2, run)
             js.append(l2_job(nm, "l2/c20_eexist.c", defines={"AC1": ac1, "AC2": ac2, "DUP2": dup2, "RUN": run},
@@ -152,6 +155,9 @@ def jobs(tier):
         for ctxfd in (0, 1, 2):
             for end in (0, 1, 2):
                 js.append(_ctx(tick, ctxfd, end))
+    for b in (1, 2, 3, 4):
+        js.append(l2_job("C20.tbstart.b%d" % b, "l2/c20_tbstart.c", defines={"BURST": b}, symbolic=["errno left by callbacks (int)"],
+                         bounds="start of a module whose token bucket holds %d tokens" % b, unwind=13, fp_extra=FP_EXTRA))
     for ac1, ac2, dup2, run in ([(1, 1, 0, 1), (0, 1, 0, 1), (1, 1, 0, 0)] if tier == "quick" else
                                 [(a, b, d, rr) for a in (0, 1) for b in (0, 1) for d in (0, 1) for rr in (0, 1)]):
         nm = "C20.eexist.ac%d%d.dup%d.run%d" % (ac1, ac2, dup2, run)
